@@ -83,6 +83,15 @@ func (m *dealMon) check(h *Hand, gs *pf.GameState, when string) *vlib.Violation 
 	if gs.Status.CurrentDeckPosition > len(c.Deck) {
 		return vlib.V("C14", "deck-position", "%s: deck position %d beyond the deck", when, gs.Status.CurrentDeckPosition)
 	}
+	// no card is ever dealt twice (the generated decks hold distinct cards; a deck
+	// that comes from the engine's own constructor has to as well)
+	seenCard := map[string]bool{}
+	for _, cd := range used {
+		if seenCard[cd] {
+			return vlib.V("C14", "dealt-twice", "%s: card %q is out twice (hole cards, board and burned cards: %v)", when, cd, used)
+		}
+		seenCard[cd] = true
+	}
 	cnt := map[string]int{}
 	for _, cd := range c.Deck[:gs.Status.CurrentDeckPosition] {
 		cnt[cd]++
